@@ -29,7 +29,7 @@ RULE = (
     "widths {1,3,14} up to depth Ds; larger widths: one full cycle + 3 from a fresh file and one full cycle + 6 from a file holding 2^w-3 (so "
     "every count is also visited with the stale tail bytes a wrap leaves behind), each with a restart at every inter-call point and without any, "
     "current() on the live and on a fresh instance at EVERY inter-call point; EVERY width 1..128 (so also 31..33, 53..55, 63..65, 127, 128): 8 calls across "
-    "the wrap from 2^w-3, with and without restarts; width change mid-run for ordered width pairs (3 calls, set, 2^w2+3 calls); a narrowing "
+    "the wrap from 2^w-3 (both next()/get_and_increment() phases), with and without restarts; width change mid-run for ordered width pairs (3 calls, set, 2^w2+3 calls); a narrowing "
     "set is only judged when the current count fits the new width, widening always; rejection alphabet of unambiguously invalid file contents "
     "(incl. 2^w and 2^w+1 for every width, also when the width was reached through the setter), acceptance of 0 and 2^w-1; missing file; "
     "several live providers (in-memory and file-backed, widths 1, 2, 14, separate files), every interleaving of calls up to depth Di, created up-front "
@@ -387,12 +387,14 @@ def wide(rec, cls, restart_every, tmp):
             if v != 0:
                 rec.violation("C19.count/SeqCountProvider/wide/first-use-not-zero", case, v, 0)
         top = ((1 << w) - 3) % (1 << w)
-        m = Machine(cls, w, path, start=top)
-        ok = _script(rec, "wide" + ("/restart-every-call" if restart_every else ""), case, m,
-                     itertools.chain(["C"] if cls != "mem" else [], _calls(8, restart_every, observe=cls != "mem")))
-        rec.states += 8
-        rec.traces += 1
-        rec.case(True, ops=m.ops)
+        ok = True
+        for parity in (0, 1):  # the call that returns 2^w-1 and the one that returns 0 are made through both entry points
+            m = Machine(cls, w, path, start=top)
+            ok = _script(rec, "wide" + ("/restart-every-call" if restart_every else ""), case, m,
+                         itertools.chain(["C"] if cls != "mem" else [], _calls(8, restart_every, observe=cls != "mem", first=parity))) and ok
+            rec.states += 8
+            rec.traces += 1
+            rec.case(True, ops=m.ops)
         if ok:
             rec.outcome(f"wide/{cls}/w={w}/restart={restart_every}")
             if w in (54, 64):
